@@ -93,6 +93,8 @@ type tcase struct {
 	// Content != "": a case of the content dimension (content.go), named by its object variant; the
 	// request-level fields above are then unused (the request is always acceptable).
 	Content string
+	// Declared != nil: a case of the declared-signer-key dimension (declared.go)
+	Declared *dcase
 }
 
 func (c tcase) sigOK() bool { return sigValid(c.Sig) && c.Flip == "" }
@@ -586,6 +588,10 @@ func main() {
 	if r.Replay != "" {
 		var c tcase
 		r.LoadReplay(&c)
+		if c.Declared != nil {
+			fmt.Println("replaying", *c.Declared, "->", checkDeclared(r, *c.Declared))
+			r.Finish()
+		}
 		if c.Content != "" {
 			for _, v := range cvs {
 				if v.Name == c.Content {
@@ -628,6 +634,27 @@ func main() {
 	r.Set("single_byte_deviation_cases", len(cases)-nProduct)
 	enumx.Parallel(len(cases), func(i int) { check(cases[i]) })
 
+	// declared-signer-key dimension
+	var dcs []dcase
+	for _, d := range declaredKeys {
+		for _, k := range sigKinds {
+			for sc := range schemeNames {
+				for _, in := range []bool{true, false} {
+					dcs = append(dcs, dcase{Declared: d, SigKind: k, Scheme: sc, LocalIn: in})
+				}
+			}
+		}
+	}
+	declOut := map[string]string{}
+	enumx.Parallel(len(dcs), func(i int) {
+		res := checkDeclared(r, dcs[i])
+		clsMu.Lock()
+		declOut[dcs[i].String()] = res
+		clsMu.Unlock()
+	})
+	r.Set("declared_key_cases", len(dcs))
+	r.Set("declared_key_outcomes", declOut)
+
 	// content dimension: every object type x valid / content-level-invalid instance, real verifiers
 	// over a real engine, differential against the client PUT handler
 	contentOut := map[string]map[string]string{}
@@ -648,7 +675,7 @@ func main() {
 	r.Set("single_cause_rejections", single)
 	r.Set("dimensions", map[string]any{"signature": sigNames, "sender": senderNames, "sender_position": []string{"first", "last"},
 		"local_node": localNames, "container": cnrNames, "object": objNames})
-	r.Rule("(A) request dimension: full cartesian product of the six dimensions + single-byte deviations over a recording store; (B) content dimension: for an always-acceptable request, every object type {REGULAR, TOMBSTONE, LOCK, LINK, EC part} x valid instances and well-formed, correctly signed instances that only the type-specific content validation can reject (tombstone/lock targets by type and state, link payload/children/order/sizes/first ID, expiration, size limit), through the real Server.Replicate + put service + format validator + tombstone/split verifiers over a real engine seeded with regular objects, a lock, a tombstone, a complete and an incomplete v2 split chain; each object is also sent through the real client PUT handler of an identical node and the storing decisions must agree. (A): a case is non-trivial when at most one of the five acceptance conditions fails (the accepted cases and the single-cause rejections); distinct = distinct case tuple")
+	r.Rule("(A') declared signer key {receiver's own key, another current container node, previous-epoch-only node, outsider} x signature {valid by the declared key, made by another key, garbage, valid for another object} x 3 schemes x receiver {inside, outside}: stored iff the signature verifies under the declared key and that key is a container node and the receiver is; (A) request dimension: full cartesian product of the six dimensions + single-byte deviations over a recording store; (B) content dimension: for an always-acceptable request, every object type {REGULAR, TOMBSTONE, LOCK, LINK, EC part} x valid instances and well-formed, correctly signed instances that only the type-specific content validation can reject (tombstone/lock targets by type and state, link payload/children/order/sizes/first ID, expiration, size limit), through the real Server.Replicate + put service + format validator + tombstone/split verifiers over a real engine seeded with regular objects, a lock, a tombstone, a complete and an incomplete v2 split chain; each object is also sent through the real client PUT handler of an identical node and the storing decisions must agree. (A): a case is non-trivial when at most one of the five acceptance conditions fails (the accepted cases and the single-cause rejections); distinct = distinct case tuple")
 	r.Assume("(A) local storage below the real put service is a recording fake (Put = stored); (B) local storage is a real engine, 'stored' = the object can be read back from it",
 		"(B) variants without a verdict in the property text (tombstone/lock for an object unknown to the node, lock on a non-regular or removed object, link missing its last child) are judged only by 'status OK iff stored' and by agreement with the PUT path",
 		"N3-witness request signatures and session-token-issued objects are outside the alphabet",
